@@ -159,7 +159,9 @@ func derefPtr(t reflect.Type, v reflect.Value) (reflect.Type, reflect.Value, ref
 func assertReflect(x any) (at reflect.Type, av reflect.Value) {
 	switch tv := x.(type) {
 	case reflect.Value:
-		at = tv.Type()
+		if tv.IsValid() {
+			at = tv.Type()
+		}
 		av = tv
 	default:
 		at = typOf(tv)
